@@ -28,6 +28,9 @@ def plan(tier, seed):
 _CLASSES = None
 
 
+_ODD_ENUM = None
+
+
 def _msg_classes():
     """a fixed pool of message classes (Serializable subclasses must have unique
     names process-wide, so they are created once)"""
@@ -475,6 +478,84 @@ def run_case(r, kind, counters, trace):
             counters.inc("qualified_annotation_refused_at_register")
         except Exception as e:
             counters.inc("qualified_annotation_refused_at_register")
+    # ---- messages nobody registered for that cannot be PRINTED (repr()/str() raise - a half-built object, a value-less enum
+    #      instance): what dispatch() says about them is still DispatchError, and nothing is called
+    from mpgameserver import SeqNum as _SNu
+
+    class C20Unprintable(object):
+        def __repr__(self):
+            raise RuntimeError("repr of a half-built message")
+        __str__ = __repr__
+
+    class C20UnprintableKey(object):
+        def __repr__(self):
+            raise KeyError("no such field")
+    odd_msgs = [C20Unprintable(), C20UnprintableKey()]
+    try:
+        from mpgameserver.serializable import SerializableEnum as _SE
+        global _ODD_ENUM
+        if _ODD_ENUM is None:
+            _ODD_ENUM = type("C20OddEnum", (_SE,), {"ONE": 1, "TWO": 2})
+        odd_msgs.append(_ODD_ENUM())
+        counters.inc("valueless_enum_instances_built")
+    except Exception:
+        pass
+    for m_ in odd_msgs:
+        args_u = (object(), _SNu(5), m_) if kind == "server" else (_SNu(5), m_)
+        trace.append("dispatch-unprintable(%s)" % type(m_).__name__)
+        calls.clear()
+        try:
+            disp.dispatch(*args_u)
+            return viol("dispatch-no-error", "dispatch of an unregistered %s instance raised nothing" % type(m_).__name__)
+        except D.DispatchError:
+            counters.inc("unprintable_unregistered_messages_ok")
+        except Exception as e:
+            return viol("dispatch-raised-other", "dispatch of an unregistered %s instance (its repr() raises) raised %r instead of DispatchError" % (type(m_).__name__, e))
+        if calls:
+            return viol("dispatch-called-something", "dispatch of an unregistered %s instance invoked %s" % (type(m_).__name__, calls[0][1]))
+    # ---- a resource that GROWS: registered with one handler; later the application adds a second decorated handler to it and
+    #      registers that one with register_function().  unregister(resource) means all of that resource's handlers, as they are
+    #      now: none of them is invoked afterwards, and register(resource) works again
+    disp4 = D.ServerMessageDispatcher() if kind == "server" else D.ClientMessageDispatcher()
+    cls_a, cls_b = r.sample(list(_msg_classes()[0]), 2)
+    tok_g = [None]
+    RG = type("ResGrow", (object,), {"on_first": _handler(kind, "on_first", cls_a, calls, tok_g)})
+    resg = RG()
+    tok_g[0] = id(resg)
+    mk = lambda cls_: (object(), _SNu(7), cls_()) if kind == "server" else (_SNu(7), cls_())
+    trace.append("growing-resource(%s, later %s)" % (cls_a.__name__, cls_b.__name__))
+    try:
+        disp4.register(resg)
+        late_name = r.choice(["a_late", "on_late", "zz_late"])           # (sorts before / after the first handler's name)
+        setattr(RG, late_name, _handler(kind, late_name, cls_b, calls, tok_g))
+        disp4.register_function(cls_b, getattr(resg, late_name))
+        calls.clear()
+        disp4.dispatch(*mk(cls_b))
+        if [c_[1] for c_ in calls] != [late_name]:
+            return viol("dispatch-wrong-handler", "growing resource: dispatch(%s) invoked %r, expected %s" % (cls_b.__name__, [c_[1] for c_ in calls], late_name))
+        disp4.unregister(resg)
+        for cls_ in (cls_a, cls_b):
+            calls.clear()
+            raised_g = False
+            try:
+                disp4.dispatch(*mk(cls_))
+            except D.DispatchError:
+                raised_g = True
+            if calls or not raised_g:
+                return viol("dispatch-after-unregister", "a resource that got a second handler (%s, via register_function) after register(): after unregister(resource) dispatch(%s) %s" % (
+                    late_name, cls_.__name__, "still invokes %s" % calls[0][1] if calls else "raises nothing"))
+        try:
+            disp4.register(resg)
+        except Exception as e:
+            return viol("reregister-refused", "a resource that got a second handler after register(): register(resource) after unregister(resource) raised %r" % (e,))
+        for cls_, mn_ in ((cls_a, "on_first"), (cls_b, late_name)):
+            calls.clear()
+            disp4.dispatch(*mk(cls_))
+            if [c_[1] for c_ in calls] != [mn_]:
+                return viol("dispatch-wrong-handler", "growing resource, registered again: dispatch(%s) invoked %r, expected %s" % (cls_.__name__, [c_[1] for c_ in calls], mn_))
+        counters.inc("growing_resource_cycles")
+    except D.DispatchError as e:
+        return viol("dispatch-error-for-registered", "growing resource: DispatchError(%s) although its handler is registered" % (e,))
     # final sweep: probe every class
     for cls in classes:
         trace.append("final-dispatch(%s)" % cls.__name__)
